@@ -143,10 +143,16 @@ def oracle(ctx):
         d = os.path.join(base, 'src', *['d' * 235 + str(i) for i in range(depth)])
         os.makedirs(d)
         good = '[' + G.SEC[ty] + ']\n' + ''.join(b + '\n' for b in G.BASE[ty])
-        where = (depth + len(nm)) % 3   # the key comes from the unit file, from a drop-in, or from a drop-in that is a symbolic link
-        with open(os.path.join(d, 'bad-unit.' + ty), 'w') as f:
+        where = (depth + len(nm)) % 4   # the key comes from the unit file, from a drop-in, from a drop-in that is a symbolic link, or (3) from
+        #                                   the template's drop-in directory of an instance whose base name contains a dot
+        uname = 'bad-unit.' + ty if where != 3 else 'bad-unit.x@inst.' + ty
+        with open(os.path.join(d, uname), 'w') as f:
             f.write(good + (nm + '=1\n' if where == 0 else ''))
-        if where:
+        if where == 3:
+            os.makedirs(os.path.join(d, 'bad-unit.x@.' + ty + '.d'))
+            with open(os.path.join(d, 'bad-unit.x@.' + ty + '.d', '10-x.conf'), 'w') as f:
+                f.write('[' + G.SEC[ty] + ']\n' + nm + '=1\n')
+        elif where:
             os.makedirs(os.path.join(d, 'bad-unit.' + ty + '.d'))
             snippet = os.path.join(base, 'snippets', 'shared.conf') if where == 2 else os.path.join(d, 'bad-unit.' + ty + '.d', '10-x.conf')
             os.makedirs(os.path.dirname(snippet), exist_ok=True)
@@ -169,7 +175,7 @@ def oracle(ctx):
             if '[SERVICE-GENERATED]' in se:
                 res.oracle_failures.append(dict(op='e2e ' + ' '.join(args), input=dict(unit_type=ty, key=nm, directory_depth=depth), impl_output=dict(exit=rc),
                                                 oracle_expectation=f'no service is generated for bad-unit.{ty} (undocumented key {nm!r})'))
-            if rc != 1 or not any(f"'{nm}'" in l and 'bad-unit.' + ty in l for l in errs):
+            if rc != 1 or not any(f"'{nm}'" in l and 'bad-unit' in l and '.' + ty in l for l in errs):
                 res.oracle_failures.append(dict(op='e2e ' + ' '.join(args), input=dict(unit_type=ty, key=nm, directory_depth=depth, path_bytes=depth * 240),
                                                 impl_output=dict(exit=rc, errors=[l[:200] + ' … ' + l[-200:] if len(l) > 420 else l for l in errs][:3]),
                                                 oracle_expectation=f'exit status 1 and an error line naming the key {nm!r} and the file bad-unit.{ty}'))
